@@ -544,6 +544,7 @@ class Machine:
         sub = dict(base or {})
         simple = re.sub(r'::\{closure#\d+\}$', '', fn_name).rsplit('::', 1)[-1]
         params = self.fn_generics.get(simple) or []
+        targs = [a for a in targs if not a.strip().startswith("'")]        # lifetimes are not in the parameter list kept
         for p_, a in zip(params, targs):
             sub[p_] = a
         return sub
@@ -571,6 +572,19 @@ class Machine:
         f = self._resolve_impl(head)
         if f is not None and targs:
             self.last_subst = self.bind_generics(f.name, targs, self.last_subst)
+        if f is not None:
+            # `Type::<A, B>::method`: bind the impl's own generics (`impl<T, U> Type<T, U>`) to the type arguments
+            mt = re.match(r'^([\w:#]+)::<(.*)>::\w+$', head)
+            hdr = self.impl_header(f.name) or ''
+            mh = re.match(r'^impl\s*<([^>]*)>', hdr)
+            if mt and mh:
+                from .mirparse import split_top
+                params = [p_.split(':')[0].strip() for p_ in split_top(mh.group(1)) if not p_.strip().startswith("'")]
+                args_ = [a for a in split_top(mt.group(2)) if not a.strip().startswith("'")]
+                sub = dict(self.last_subst)
+                for p_, a in zip(params, args_):
+                    sub.setdefault(p_, a)
+                self.last_subst = sub
         return f
 
     def _resolve_impl(self, callee):
@@ -584,6 +598,13 @@ class Machine:
                     sub = self._unify(pat, self_ty)
                     if sub is not None:
                         cands.append((f, sub))
+            if not cands:
+                # the self type may only occur in the return type (constructors: try_from, default, from ...)
+                for name, f in self.fns.items():
+                    if hasattr(f, 'params') and name.endswith('>::' + meth) and '<impl at ' in name and name.count('<impl at') == 1:
+                        r_ = self._norm_ty(f.ret)
+                        if r_ in (self_ty, f'Result<{self_ty}, Error>', f'Option<{self_ty}>'):
+                            cands.append((f, {}))
             if len(cands) > 1:
                 raw = mt.group(1).replace('&mut ', '').replace('&', '').strip()
                 full = [c for c in cands if c[0].params and c[0].params[0][1].replace('&mut ', '').replace('&', '').strip().endswith(raw)]
@@ -607,7 +628,8 @@ class Machine:
             if name.endswith('>::' + meth) and '<impl at ' in name:
                 first = f.params[0][1] if f.params else ''
                 hdr = self.impl_header(name) or ''
-                hself = re.sub(r'<.*$', '', hdr.split(' for ')[-1].replace('impl', '', 1).strip()) if hdr else None
+                hm_ = re.match(r'[\w:#]+', re.sub(r'^impl\s*(<[^>]*>)?\s*', '', hdr.split(' for ')[-1].strip())) if hdr else None
+                hself = hm_.group(0).split('::')[-1] if hm_ else None
                 if ty.split('::')[-1] in (first.lstrip('&').replace('mut ', ''), f.ret, self._norm_ty(first), self._norm_ty(f.ret), hself):
                     cands.append(f)
         if len(cands) > 1:
